@@ -25,10 +25,43 @@ Definition is_alpha_c (c : ascii) : bool :=
   let n := nat_of_ascii c in (((65 <=? n) && (n <=? 90)) || ((97 <=? n) && (n <=? 122)))%nat.
 Definition has_angle (s : str) : bool := existsb (fun c => Ascii.eqb c "<") s.
 (* the final "is this a custom type name" test (ASCII reading of char::is_lowercase / is_alphabetic) *)
+(* char::is_lowercase / char::is_alphabetic of the first character. Strings are UTF-8 bytes: the first code point is
+   decoded (1 to 3 bytes) and classified by ranges transcribed from the Unicode tables for the scripts the generators
+   use; the domain predicate (Spec/C07Spec.v first_classified) keeps every name inside these ranges. *)
+From Coq Require Import NArith.
+Local Open Scope N_scope.
+Definition first_cp (s : str) : option N :=
+  match s with
+  | [] => None
+  | b0 :: r =>
+      let n0 := N_of_ascii b0 in
+      if n0 <? 128 then Some n0
+      else if (194 <=? n0) && (n0 <=? 223) then
+        match r with b1 :: _ => Some ((n0 - 192) * 64 + (N_of_ascii b1 - 128)) | _ => None end
+      else if (224 <=? n0) && (n0 <=? 239) then
+        match r with b1 :: b2 :: _ => Some ((n0 - 224) * 4096 + (N_of_ascii b1 - 128) * 64 + (N_of_ascii b2 - 128)) | _ => None end
+      else None
+  end.
+Definition in_ranges (cp : N) (l : list (N * N)) : bool := existsb (fun r => (fst r <=? cp) && (cp <=? snd r)) l.
+(* Ll: ASCII, Latin-1, Greek, Cyrillic *)
+Definition lower_ranges : list (N * N) := [(97, 122); (223, 246); (248, 255); (945, 969); (1072, 1103)].
+(* Lu: ASCII, Latin-1, Greek, Cyrillic *)
+Definition upper_ranges : list (N * N) := [(65, 90); (192, 214); (216, 222); (913, 929); (931, 937); (1040, 1071)].
+(* alphabetic without case: Lt digraphs, Hebrew, Arabic, Devanagari, Hiragana, Katakana, CJK unified ideographs *)
+Definition caseless_ranges : list (N * N) :=
+  [(453, 453); (456, 456); (459, 459); (498, 498); (1488, 1514); (1569, 1610); (2308, 2361); (12353, 12438); (12449, 12538); (19968, 40959)].
+Definition lower_first (s : str) : bool := match first_cp s with Some cp => in_ranges cp lower_ranges | None => false end.
+Definition alpha_first (s : str) : bool :=
+  match first_cp s with Some cp => in_ranges cp lower_ranges || in_ranges cp upper_ranges || in_ranges cp caseless_ranges | None => false end.
+(* every character test of the final check has a definite answer on this name *)
+Definition first_classified (s : str) : bool :=
+  match first_cp s with Some cp => (cp <? 128) || alpha_first s | None => false end.
+Local Close Scope N_scope.
+
 Definition custom_name (s : str) : bool :=
   match s with
   | [] => false
-  | c :: _ => negb (one_of s type_set) && negb (is_lower_c c) && is_alpha_c c && negb (has_angle s)
+  | c :: _ => negb (one_of s type_set) && negb (lower_first s) && alpha_first s && negb (has_angle s)
   end.
 
 Fixpoint strip_amps (s : str) : str := match s with "&" :: r => strip_amps r | _ => s end.
